@@ -366,6 +366,18 @@ def run(ctx):
         ("hsz", "size(u8a)", lambda v: 4), ("isz", "hsz", lambda v: 4), ("jsz", "isz + 1", lambda v: 5), ("ksum", "nsum8", lambda v: v["u8a"][0] + v["u8a"][1]),
         ("gpb", "pb.one", lambda v: v["pb"][0]), ("gpa", "pa.one", lambda v: v["pa"][0]), ("gpa2", "pa.two", lambda v: v["pa"][1]), ("gpb2", "pb.two", lambda v: v["pb"][1]),
         ("gsum", "pa.one + pa.two", lambda v: v["pa"][0] + v["pa"][1]), ("gboth", "pb.one + pa.one", lambda v: v["pb"][0] + v["pa"][0]),
+    ]
+    # integer literals at and around the limits of every integer width, negative and positive: alone, added to an int32 field, and as a switch arm.
+    # The static type has to hold the literal: the value in every target is the literal's.
+    LITS = [-1, -127, -128, -129, -200, -255, -256, -257, -32767, -32768, -32769, -40000, -65535, -65536, -65537, -2147483647, -2147483648, -2147483649, -3000000000,
+            -4294967295, -4294967296, -4294967297, -9223372036854775807, 127, 128, 255, 256, 32767, 32768, 65535, 65536, 2147483647, 2147483648, 4294967295, 4294967296,
+            9223372036854775807]
+    for li, L in enumerate(LITS):
+        NX.append(("lit%d" % li, "%d" % L, (lambda L: lambda v: L)(L)))
+        if -(2 ** 62) < L <= 4294967295 and not (-2 ** 31 <= L < -2 ** 31 + 1001):      # (int32 + an int32 literal next to INT32_MIN would leave the result type)
+            NX.append(("lita%d" % li, "ia + %d" % L if L >= 0 else "ia + (%d)" % L, (lambda L: lambda v: v["ia"] + L)(L)))
+        NX.append(("lits%d" % li, None, (lambda L: lambda v: L if v["lu"][0] == 0 else (0 if L >= 0 else -1))(L)))
+    NX += [
         # a switch case declares a variable `x`; the computed field of another record, reached from that case, uses *its own* field `x`
         ("leak", None, lambda v: v["sl"][0] * 2), ("leakd", "sl.twice", lambda v: v["sl"][0] * 2),
     ]
@@ -378,6 +390,8 @@ def run(ctx):
     for nme, src, _ in NX:
         if src is not None:
             emodel += "    %s: '%s'\n" % (nme, src)
+    for li, L in enumerate(LITS):
+        emodel += "    lits%d:\n      !switch lu:\n        int32 q: '%d'\n        string s: '%d'\n" % (li, L, 0 if L >= 0 else -1)
     emodel += "PNx: !protocol\n  sequence:\n    items: !stream\n      items: Nx\n"
     root = os.path.join(ctx.workdir, "values")
     pkgdir = write_pkg(root, "".join(vmodel) + emodel)
@@ -536,7 +550,7 @@ def run(ctx):
         pa, pb = [r.randint(-300, 300), r.randint(-300, 300)], [f64(r.choice([0.5, 2.25, -7.0])), f64(r.choice([1.5, 100.0]))]
         lu, sl = ((0, r.randint(-9, 9)) if k % 2 else (1, "t")), [f64(r.choice([1.25, -0.75, 1000.5]))]
         nitems.append([((4,), u8a), i8v, ((2, 2), i16a), u16v, u32v, ((2,), i32v), f32v, u8s, i16s, ia, pa, pb, lu, sl])
-        nenvs.append(dict(sl=[sl[0].value], u8a=u8a, i8v=i8v, i16a=i16a, u16v=u16v, u32v=u32v, i32v=i32v, f32v=[f32v[0].value], u8s=u8s, i16s=i16s, ia=ia, pa=pa, pb=[pb[0].value, pb[1].value]))
+        nenvs.append(dict(sl=[sl[0].value], u8a=u8a, i8v=i8v, i16a=i16a, u16v=u16v, u32v=u32v, i32v=i32v, f32v=[f32v[0].value], u8s=u8s, i16s=i16s, ia=ia, pa=pa, pb=[pb[0].value, pb[1].value], lu=lu))
     pr, rows_cpp, res, rows_py = run_both("PNx", nitems)
     if rows_cpp is None or rows_py is None:
         ctx.violation("driver-failed:%s" % ("cpp" if rows_cpp is None else "py"), "Nx: computed-field driver failed: %s %s" % (pr.stderr[-300:], res.get("error")), {"case_dir": root})
